@@ -2,15 +2,21 @@
 import math
 from fractions import Fraction as Fr
 
+import os
+
 from harness import common as C
+from translate import c12 as T
 
 ID = 'C12'
 PROPS_V = 'C12/Props.v'
 COQCHK = 'norec'   # closure rests on Reals (and Interval): full coqchk takes tens of minutes
 LEVEL = 'proof'
 TRUSTED = [
-    'hand-written model C12/Model.v (transliteration of mangle.is_cap_used/is_in_polygon/is_in_window/set_use_caps and of '
-    'the ICAP/NCAPS slicing in window.window_read) -- tied to the code by exact correspondence on every run',
+    'translate/c12.py + translate/pyexpr.py: Python ast -> Gallina for the decision expressions of cap_distance, is_in_cap, '
+    'angles_to_x, is_cap_used, is_in_polygon, is_in_window, set_use_caps and the balkans slices of window_read '
+    '(Generated/Mangle.v, Generated/MangleR.v); C12/RBase.v gives np.degrees / np.radians / np.clip their real meaning',
+    'hand-written loop skeletons of C12/Model.v around the generated expressions -- tied to the code by exact '
+    'correspondence on every run',
     'C12/Arccos.v ties the code formula arccos(1-|cm|) - arccos(x.p) >= 0 to the algebraic test over Coq Reals '
     '(stdlib axioms: ClassicalDedekindReals.sig_forall_dec, sig_not_dec, functional_extensionality_dep, Classical_Prop.classic); '
     'numpy arccos/dot rounding is outside: generated points keep |1 - x.p - |cm|| > 1e-11',
@@ -28,7 +34,19 @@ ASSUMPTIONS = [
 ]
 
 HEADER = '''From Coq Require Import ZArith QArith List. Import ListNotations.
-From PV Require Import C12.Model. Open Scope Z_scope.'''
+From PV Require Import C12.Spec C12.Model. Open Scope Z_scope.'''
+
+def translate(ctx):
+    """Regenerate coq/Generated/Mangle.v and MangleR.v from the repository under test (fail-closed)."""
+    ztext, rtext, info = T.generate(C.REPO)
+    if ztext is not None:
+        info['changed'] = [C.write_if_changed(os.path.join(C.COQ, 'Generated', 'Mangle.v'), ztext),
+                           C.write_if_changed(os.path.join(C.COQ, 'Generated', 'MangleR.v'), rtext)]
+    else:
+        info['note'] = ('source shape not recognised; the previous Generated/Mangle.v and MangleR.v are kept and the '
+                        'correspondence run alone ties model to code')
+    return {'Mangle': info}
+
 
 MARGIN = Fr(1, 10 ** 11)
 SIG_NAN = 'C12:membership:dot-product-outside-[-1,1]:arccos=NaN:impl=outside:property'
